@@ -3,7 +3,7 @@
           kind Success 0 | Revert 1 | Panic 2 | FailFlag 3 | Stuck 4;
           answer Sat true 0 | Sat false 1 | Unsat 2 | Unknown 3 | Err 4 (None = -1);
           action ASubmit 0 | AStuckSolve 1 | ACountNormal 2 | ANone 3;
-          event EvMain = -1 | EvCb j = j. *)
+          event EvMain = -1 | EvMainRaise = -2 | EvCb j = j. *)
 From Coq Require Import ZArith List Bool String Ascii.
 From Coq Require Extraction.
 From Coq Require Import ExtrOcamlBasic ExtrOcamlString.
@@ -34,7 +34,8 @@ Fixpoint dec_paths (n : nat) (l : list Z) : list path * list Z :=
             end
   end.
 
-Definition dec_event (z : Z) : event := if z <? 0 then EvMain else EvCb (Z.to_nat z).
+Definition dec_event (z : Z) : event :=
+  if z =? -2 then EvMainRaise else if z <? 0 then EvMain else EvCb (Z.to_nat z).
 
 Definition c05_chain (a : list Z) : list Z :=
   match a with
